@@ -136,6 +136,7 @@ extern AllocCtl g_alloc;
 void alloc_reset_run();    // free every block still live (after an aborted run) and reset counters
 extern __thread Rng *g_rand_stream; // stream behind __wrap_rand (per logical object; per thread under threadsim)
 extern __thread int g_arch_cap;     // max arch level for objects created now (-1 = host)
+extern __thread int g_arch_force;   // >= 0: exact level for objects created now (overrides the FUZZING build's random downgrade)
 extern __thread const char *g_ctx;   // what the simulator is doing right now (names an abort() raised inside the library)
 extern __thread bool g_in_run;
 void *sim_malloc(size_t n);         // malloc, or the running task's arena under threadsim
